@@ -52,6 +52,7 @@ class Ctx:
         self.fn, self.res, self.on_index, self.on_value = fn, res, on_index, on_value
         self.nix = [0]; self.nk = [0]; self.nloop = [0]; self.loops = []
         self.ret = None; self.fuelvar = None; self.loop_index = {}
+        self.site_kind = {}                      # DecodeError raise statements in source order -> fault kind (fall-back)
 
     def number_loops(self, fn, skip=()):
         ws = sorted((n for n in ast.walk(fn) if isinstance(n, ast.While) and n not in skip), key=lambda n: (n.lineno, n.col_offset))
@@ -61,6 +62,7 @@ class Ctx:
         c = Ctx(self.fn, self.res, self.on_index, self.on_value)
         c.nix, c.nk, c.nloop, c.loops, c.ret, c.fuelvar = self.nix, self.nk, self.nloop, self.loops, self.ret, self.fuelvar
         c.loop_index = self.loop_index
+        c.site_kind = self.site_kind
         for k, v in kw.items():
             setattr(c, k, v)
         return c
@@ -555,6 +557,24 @@ def message_ok(m):
     return False
 
 
+def message_ok_decode(m):
+    """a re-worded DecodeError message: a constant, or an f-string of constants and plain `{name}` / `{str(name)}` parts
+    (evaluating it cannot raise)"""
+    if isinstance(m, ast.Constant) and isinstance(m.value, str):
+        return True
+    if isinstance(m, ast.JoinedStr):
+        for part in m.values:
+            if isinstance(part, ast.Constant):
+                continue
+            if not (isinstance(part, ast.FormattedValue) and part.conversion == -1 and part.format_spec is None):
+                return False
+            src = u(part.value)
+            if not (src.isidentifier() or (src.startswith("str(") and src.endswith(")") and src[4:-1].isidentifier())):
+                return False
+        return True
+    return False
+
+
 def raise_stmt(s, env, ctx, ind):
     e = s.exc
     if not isinstance(e, ast.Call) or e.keywords:
@@ -579,6 +599,16 @@ def raise_stmt(s, env, ctx, ind):
                 and m.values[1].conversion == -1 and m.values[1].format_spec is None:
             c, t = expr(m.values[1].value, env)
             kind = f"({DEC_FMSG[(m.values[0].value, m.values[2].value)]} {as_type(c, t, 'N', 'message number')})"
+        elif id(s) in ctx.site_kind and message_ok_decode(m):
+            k = ctx.site_kind[id(s)]
+            if k == ".tag":
+                kind = k
+            else:
+                nums = [p for p in (m.values if isinstance(m, ast.JoinedStr) else []) if isinstance(p, ast.FormattedValue)]
+                if len(nums) != 1:
+                    raise Unsupported(f"{ctx.fn}: message `{u(m)[:60]}` does not carry the expected count")
+                c, t = expr(nums[0].value, env)
+                kind = f"({k} {as_type(c, t, 'N', 'message number')})"
         else:
             raise Unsupported(f"{ctx.fn}: message `{u(m)[:60]}`")
         tag, tt = expr(e.args[1], env); ofs, to = expr(e.args[2], env); d, td = expr(e.args[3], env)
@@ -618,6 +648,12 @@ def gen_decode_loop(fn):
     ctx = Ctx("_decode", "ResC α")
     ctx.fuelvar = "fuel"
     ctx.number_loops(fn, skip=(w,))
+    # a re-worded message no longer names the fault: fall back on the order of the raise sites (tag, tag, length,
+    # length, value); a wrong guess cannot prove anything, the refinement theorem compares the kinds
+    sites = sorted((n for n in ast.walk(fn) if isinstance(n, ast.Raise) and isinstance(n.exc, ast.Call) and u(n.exc.func) == "DecodeError"),
+                   key=lambda n: (n.lineno, n.col_offset))
+    if len(sites) == 5:
+        ctx.site_kind = {id(n): k for n, k in zip(sites, [".tag", ".tag", ".len", ".len", ".val"])}
     env = {"data": "B", "ofst": "N", "ofst_limit": "N", "dec": "D", "log": "L", "flatten": "Bool", "simple": "Bool"}
 
     def ret(s, env2, ind2):
